@@ -82,6 +82,13 @@ def check(prog, rep):
                 t = norm(a)
                 root = t.split('.')[0]
                 got.append(t.replace(root, bind.get(root, root), 1) if root in bind else t)
+
+            def unwrap(t):
+                # a grid may be wrapped into a dask array on the way: da.from_array(xs, chunks=...) is still `xs`
+                import re as _re
+                m_ = _re.match(r'^(?:da|dask\.array)\.from_array\((\w+)[,)]', t.replace(' ', ''))
+                return m_.group(1) if m_ else t
+            got = [unwrap(t) for t in got]
             rep.add('P7-args', dfun, entry, 'map_overlap arrays %s vs numpy call %s' % (got, np_args), site.call.lineno,
                     got == np_args, 'the data and the two coordinate grids must be passed in the same order on both paths')
     # ---- H2
@@ -89,16 +96,17 @@ def check(prog, rep):
     bt = norm(b) if b is not None else None
     rep.add('H2', dfun, entry, 'boundary=%s' % bt, site.call.lineno, bt in NAN_TEXTS,
             'halo cells outside the raster must be NaN (NaN is never a target); reflect/periodic/nearest would invent targets')
-    # ---- depth
+    # ---- depth and fallback: read on the function with its small helpers inlined, one environment per branch
+    from ..astutil import inline, straightline_env
+    from ..inline import inline_view
+    dv = inline_view(prog, dfun)
     d = site.kwargs.get('depth')
-    if not (isinstance(d, ast.Tuple) and len(d.elts) == 2 and all(isinstance(e, ast.Name) for e in d.elts)):
-        rep.add('P7a', dfun, entry, 'depth=%s' % (norm(d) if d is not None else None), site.call.lineno, None,
-                'depth must be a pair of names (row pad, column pad)')
+    if d is None:
+        rep.add('P7a', dfun, entry, 'depth', site.call.lineno, False, 'map_overlap without a depth has no halo')
         return
-    pad_names = [e.id for e in d.elts]
-    # resolution unpacking
+    # resolution unpacking (anywhere in the function, helpers included)
     res = {}
-    for n in dfun.own_nodes():
+    for n in dv.own_nodes():
         if isinstance(n, ast.Assign) and isinstance(n.value, ast.Call):
             t = prog.resolve_callable(dfun, dfun.module, n.value.func)
             if isinstance(t, Func) and t.name == 'get_dataarray_resolution' and isinstance(n.targets[0], ast.Tuple) \
@@ -110,11 +118,9 @@ def check(prog, rep):
                 '`cx, cy = get_dataarray_resolution(raster)` not found')
         return
     # the fallback `if`
-    ifs = [n for n in dfun.own_nodes() if isinstance(n, ast.If)]
     fb = None
-    for n in ifs:
-        t = n.test
-        if isinstance(t, ast.Compare) and len(t.ops) == 1 and 'max_distance' in norm(t):
+    for n in dv.node.body:
+        if isinstance(n, ast.If) and isinstance(n.test, ast.Compare) and len(n.test.ops) == 1 and 'max_distance' in norm(n.test):
             fb = n
     if fb is None:
         rep.add('P7b', dfun, entry, 'single-block fallback', dfun.node.lineno, False,
@@ -137,24 +143,41 @@ def check(prog, rep):
         okmp = isinstance(tt, Func) and tt.name == '_distance' and len(args) == 5 and \
             args[0] in ('xs[0][0]', 'xs[0,0]') and args[1] in ('xs[-1][-1]', 'xs[-1,-1]') and \
             args[2] in ('ys[0][0]', 'ys[0,0]') and args[3] in ('ys[-1][-1]', 'ys[-1,-1]') and args[4] == 'distance_metric'
-    rep.add('P7b', impl, entry, '%s = %s' % (other, mptxt), impl.node.lineno, okmp and (whole_when_true or True),
+    rep.add('P7b', impl, entry, '%s = %s' % (other, mptxt), impl.node.lineno, okmp,
             'the fallback threshold must be the corner-to-corner distance of the raster under the chosen metric')
     rep.add('P7b', dfun, entry, 'if %s' % norm(t), fb.lineno,
             (l == 'max_distance' and opn in ('GtE', 'Gt', 'Lt', 'LtE')) or (r == 'max_distance' and opn in ('GtE', 'Gt', 'Lt', 'LtE')),
             'fallback comparison must relate max_distance to the raster extent')
-    # whole branch: rechunk data, xs, ys to full shape; pads 0
+    body = dv.node.body
+    before, after = body[:body.index(fb)], body[body.index(fb) + 1:]
+
+    def depth_in(branch):
+        """the two depth expressions (rows, columns) as seen after this branch, locals inlined"""
+        env = straightline_env(before + list(branch) + after)
+        e = inline(d, env)
+        if isinstance(e, ast.Tuple) and len(e.elts) == 2:
+            return list(e.elts), env
+        if isinstance(e, ast.Dict) and len(e.keys) == 2 and sorted(const(k) for k in e.keys) == [0, 1]:
+            byk = {const(k): v for k, v in zip(e.keys, e.values)}
+            return [byk[0], byk[1]], env
+        return None, env
+    # whole branch: rechunk data, xs, ys to full shape; depth 0
+    wd, wenv = depth_in(whole_branch)
     rech = {}
-    for s in whole_branch:
-        for n in ast.walk(s):
+    for s_ in whole_branch:
+        for n in ast.walk(s_):
             if isinstance(n, ast.Assign) and isinstance(n.value, ast.Call) and short(n.value) == 'rechunk':
                 tgt = norm(n.targets[0])
                 src = norm(n.value.func.value)
-                arg = norm(n.value.args[0]).replace(' ', '') if n.value.args else ''
-                rech[tgt] = (src, arg)
+                a0 = n.value.args[0] if n.value.args else None
+                if isinstance(a0, ast.Name):
+                    loc = [x.value for x in whole_branch if isinstance(x, ast.Assign) and norm(x.targets[0]) == a0.id]
+                    a0 = loc[0] if len(loc) == 1 else a0
+                rech[tgt] = (src, norm(a0).replace(' ', '') if a0 is not None else '')
     hw = None
-    for s in whole_branch:
-        if isinstance(s, ast.Assign) and isinstance(s.targets[0], ast.Tuple) and norm(s.value).endswith('.shape'):
-            hw = [e.id for e in s.targets[0].elts]
+    for s_ in whole_branch:
+        if isinstance(s_, ast.Assign) and isinstance(s_.targets[0], ast.Tuple) and norm(s_.value).endswith('.shape'):
+            hw = [e.id for e in s_.targets[0].elts]
     want_arg = ('{0:%s,1:%s}' % (hw[0], hw[1])) if hw else None
     alt_arg = ('(%s,%s)' % (hw[0], hw[1])) if hw else None
     need = {site_root(a) for a in site.arrays}
@@ -162,52 +185,43 @@ def check(prog, rep):
     rep.add('P7b', dfun, entry, 'fallback rechunks %s' % sorted(rech.items()), fb.lineno, okr,
             'when every target may matter the data and BOTH coordinate grids must become one block of the full shape '
             '(rows from shape[0], columns from shape[1]); needs %s' % sorted(need))
-    pads0 = set()
-    for s in whole_branch:
-        if isinstance(s, ast.Assign) and isinstance(const(s.value), int) and const(s.value) >= 0:
-            for tg in s.targets:
-                for e in ast.walk(tg):
-                    if isinstance(e, ast.Name):
-                        pads0.add(e.id)
-    rep.add('P7b', dfun, entry, 'fallback pads %s constant' % sorted(pads0), fb.lineno, set(pad_names) <= pads0,
-            'with a single block no halo is needed: both pads must be non-negative constants in the fallback branch')
+    ok0 = wd is not None and all(isinstance(const(e), int) and not isinstance(const(e), bool) and const(e) >= 0 for e in wd)
+    rep.add('P7b', dfun, entry, 'fallback depth %s' % ([norm(e) for e in wd] if wd else None), fb.lineno, ok0,
+            'with a single block no halo is needed: both depths must be non-negative constants in the fallback branch')
     # halo branch: pads
+    hd, henv = depth_in(halo_branch)
     env = {'max_distance': Rat.sym('max_distance')}
     for k, ax in res.items():
         env[k] = Rat.sym('cellsize_' + ax)
     sp = Spec(prog, env, dfun.module)
-    pads = {}
-    for s in halo_branch:
-        if isinstance(s, ast.Assign) and isinstance(s.targets[0], ast.Name) and s.targets[0].id in pad_names:
-            try:
-                pads[s.targets[0].id] = (sp.it.as_scalar(sp.it.ev(s.value)), s)
-            except AnalysisIncomplete as e:
-                pads[s.targets[0].id] = (None, s)
-    for slot, (pn, ax) in enumerate(zip(pad_names, ('y', 'x'))):
-        if pn not in pads or pads[pn][0] is None:
-            rep.add('P7a', dfun, entry, 'pad %s' % pn, fb.lineno, None, 'pad expression not found / not understood')
+    for slot, ax in enumerate(('y', 'x')):
+        if hd is None:
+            rep.add('P7a', dfun, entry, 'depth[%d]' % slot, fb.lineno, None, 'depth expression not found / not understood')
             continue
-        v, stmt = pads[pn]
+        try:
+            v = sp.it.as_scalar(sp.it.ev(hd[slot]))
+        except AnalysisIncomplete as e:
+            rep.add('P7a', dfun, entry, 'depth[%d] = %s' % (slot, norm(hd[slot])), fb.lineno, None, str(e))
+            continue
         ok, why = pad_form(v, ax)
-        rep.add('P7a', dfun, entry, 'depth[%d] = %s' % (slot, norm(stmt)), stmt.lineno, ok,
+        rep.add('P7a', dfun, entry, 'depth[%d] = %s' % (slot, norm(hd[slot])), fb.lineno, ok,
                 'the halo on the %s axis (depth slot %d) must be int(max_distance / cellsize_%s + c) with c >= 0 or a '
                 'ceil of that quotient: %s' % ('row' if ax == 'y' else 'column', slot, ax, why))
     # coordinate grids chunked like the data
     for g in ('xs', 'ys'):
         ok = False
         txt = None
-        for n in impl.own_nodes():
-            if isinstance(n, ast.Assign) and norm(n.targets[0]) == g and isinstance(n.value, ast.Call) and \
-                    short(n.value) == 'from_array':
-                txt = norm(n)
-                ch = kw(n.value, 'chunks') or (n.value.args[1] if len(n.value.args) > 1 else None)
-                # any chunking is sound: da.map_overlap unifies the chunks of its array arguments
-                nm = kw(n.value, 'name')
+        for c_ in calls(impl.node):
+            if c_ in impl.own_nodes() and short(c_) == 'from_array' and c_.args and norm(c_.args[0]) == g:
+                txt = norm(c_)
+                ch = kw(c_, 'chunks') or (c_.args[1] if len(c_.args) > 1 else None)
+                nm = kw(c_, 'name')
                 # graph keys: the default name hashes the array's content; an explicit name that is not a function of
                 # the grid's values makes two different grids collide when two results are computed together
                 okname = nm is None or (isinstance(nm, ast.Constant) and nm.value in (None, False)) or \
                     (isinstance(nm, ast.Call) and short(nm) == 'tokenize' and any(norm(a) == g for a in nm.args))
-                ok = norm(n.value.args[0]) == g and ch is not None and okname
+                # any chunking is sound: da.map_overlap unifies the chunks of its array arguments
+                ok = ch is not None and okname
         rep.add('P7-grid', impl, entry, (txt or 'dask grid %s' % g)[:140], impl.node.lineno, ok,
                 'the dask %s grid must wrap the numpy %s grid built from the raster coordinates' % (g, g))
     # coordinate grids built from the raster's coords
